@@ -8,6 +8,7 @@ import KB.Driver.Suites
 import KB.Driver.Sched
 import KB.Driver.Election
 import KB.Driver.Roles
+import KB.Driver.Etcd
 open KB KB.Driver
 
 partial def loop {σ : Type} (h : IO.FS.Stream) (step : σ → List String → σ × String) (st : σ) : IO Unit := do
@@ -33,4 +34,5 @@ def main (args : List String) : IO Unit := do
   | "sched" => loop stdin Sched.step Sched.init
   | "election" => loop stdin Election.step Election.init
   | "roles" => loop stdin Roles.step Roles.init
+  | "etcd" => loop stdin Etcd.step Etcd.init
   | _ => loop stdin (stepSuite suiteName) (initSuite suiteName [])
